@@ -107,6 +107,8 @@ structure RetryRel (cfg : Cfg) (st : St) (t : Track) (tid : Tid) (b : Batch) (tp
   nostop : st.stopping = false
   ne : tps ≠ []
   al : t.acct = true → ∀ tp ∈ b.live, tp ∈ tps
+  /-- the request being retried: the retry is part of it -/
+  prev : ∃ rid cur0, t.cur = some (rid, b.payloadsFor cur0) ∧ (t.acct = true → ∀ tp ∈ tps, tp ∈ cur0)
 
 structure Rel (cfg : Cfg) (st : St) (t : Track) : Prop where
   stopped : t.stopped = st.stopping
@@ -155,7 +157,8 @@ theorem RetryRel.congr {cfg : Cfg} {st : St} {t t' : Track} {tid : Tid} {b : Bat
   have e6 : t.acked = t'.acked := norm_field (·.acked) (fun _ => rfl) hn
   exact ⟨by rw [← e4]; exact h.tid, by rw [← e2, ← e5, ← e6]; exact h.res, h.br.congr hn, by rw [← e3]; exact h.chain,
     h.att, h.sub, h.nodup, h.nostop, h.ne,
-    by rw [← (norm_field (·.acct) (fun _ => rfl) hn : t.acct = t'.acct)]; exact h.al⟩
+    by rw [← (norm_field (·.acct) (fun _ => rfl) hn : t.acct = t'.acct)]; exact h.al,
+    by rw [← (norm_field (·.acct) (fun _ => rfl) hn : t.acct = t'.acct), ← (norm_field (·.cur) (fun _ => rfl) hn : t.cur = t'.cur)]; exact h.prev⟩
 
 theorem Rel.congr {cfg : Cfg} {st : St} {t t' : Track} (h : Rel cfg st t) (hn : norm t = norm t') : Rel cfg st t' := by
   have e1 : t.cur = t'.cur := norm_field (·.cur) (fun _ => rfl) hn
